@@ -14,6 +14,9 @@ ov=json.load(open('/verif/work/shim/overlay.json'))['Replace']
 for f in glob.glob(pkgdir+'/*_test.go'):
     ov[f]=tmp+'/blank.go'
 ov[pkgdir+'/zz_replay_test.go']=os.path.abspath(src)
+# sibling replay files of the same directory (zz_replay_*_test.go) share helpers with it
+for f in glob.glob(os.path.dirname(os.path.abspath(src))+'/zz_replay_*_test.go'):
+    ov[pkgdir+'/'+os.path.basename(f)]=f
 json.dump({'Replace':ov},open(tmp+'/ov.json','w'))
 PY
 cd $mod && GOFLAGS= GOPROXY=off GOSUMDB=off GOTOOLCHAIN=local go test -overlay $tmp/ov.json -vet=off -count=1 -timeout 120s "$@" ./$pkg 2>&1 | tail -15
